@@ -1,15 +1,23 @@
 (* helpers.basis_function_ders (Algorithm A2.3) computes the algebraic derivatives dN of Eq. 2.9 - which are the
    analytic derivatives by DerivAnalytic.v - for ALL degrees, sorted knot vectors, spans, orders <= degree.
 
-     ders_general :  nth r (nth k (basis_function_ders Rops p U span u order) []) 0 = dN (Ufun U) k p (span - p + r) u
+     ders_general_pieces (every real u, span fixed):
+        nth r (nth k (basis_function_ders Rops p U span u order) []) 0 = dNk (Ufun U) span k p (span - p + r) u
+     ders_general (u in the half-open span [U_span, U_span+1)):
+        nth r (nth k (basis_function_ders Rops p U span u order) []) 0 = dN (Ufun U) k p (span - p + r) u
+     ders_rows_sum_to_zero_general (every real u): rows k >= 1 sum to zero.
 
-   Chain:  (1) DersNdu.ndu_table_spec  (the ndu table: basis functions of all degrees + knot differences)
-           (2) DersEq210.eq_2_10       (Eq. 2.10 at specification level, coefficients [acoef])
+   dNk = k-th derivative of the polynomial piece Nk of the Cox-de Boor function on that span (DerivAnalytic.v); on the
+   half-open span Nk = N and dNk = dN.  The algorithm is a formal (rational-function) computation on the knots of the
+   window, so it computes the piece for every u; this also covers the closed right end of the domain, where geomdl
+   evaluates u = U_{span+1} with the last non-empty span.
+
+   Chain:  (1) DersNdu.ndu_table_spec(_pieces)   the ndu table: basis functions of all degrees + knot differences
+           (2) DersEq210.eq_2_10(_pieces)        Eq. 2.10 at specification level, coefficients [acoef]
            (3) here: the loop over k of [ders_for_r] keeps  a[s1][j] = a_{k,j}  on the active index range
                J_k = { j | k <= r + j, r + j <= p, j <= k }  (the functions N_{i+j,p-k} that do not vanish on the span)
-               and emits  d_k = sum_{j=0..k} a_{k,j} N_{i+j,p-k}(u)   (the skipped terms are zero: N vanishes);
-           (4) the factor loop produces p!/(p-k)! = ff p k.
-   Corollary: every derivative row k >= 1 sums to zero. *)
+               and emits  d_k = sum_{j=0..k} a_{k,j} N_{i+j,p-k}(u)   (the skipped terms are zero: the piece vanishes);
+           (4) the factor loop produces p!/(p-k)! = ff p k. *)
 From Coq Require Import List Reals Lra Lia Arith Bool.
 From NV Require Import Scalar.Ops Model.Common Model.Basis Proofs.Boehm Proofs.BasisR Proofs.DersRow0
                        Proofs.DerivAnalytic Proofs.DersEq210 Proofs.DersNdu.
